@@ -1,4 +1,5 @@
 """Helpers shared by the per-property rules."""
+import re
 from .. import dex as D
 
 
@@ -9,7 +10,7 @@ def int_valuation(assign):
             return v[1]
         s = D.show(v)
         for k, n in assign.items():
-            if s == k or (k.endswith("*") and s.startswith(k[:-1])):
+            if s == k or (k.endswith("*") and s.startswith(k[:-1])) or (k.startswith("re:") and re.search(k[3:], s)):
                 return n
         return None
 
@@ -51,3 +52,19 @@ def payload(v):
 def true_variants(path):
     """{show(subject): variant} for the variant atoms that hold on the path."""
     return {D.show(a[1]): a[2] for a, t in path.conds if a[0] == "variant" and t}
+
+
+# ---- helper inlining policy for ruma-signatures ----------------------------------------------------------------------------------
+# Rules name these functions (as effects or anchors); every other free function of the module is a private helper and is inlined, so
+# that moving a few statements into (or out of) a helper does not change what a rule sees.
+SIG_ANCHORS = {"sign_json", "verify_json", "verify_event", "verify_canonical_json_for_entity", "verify_canonical_json_with",
+               "canonical_json", "canonical_json_with_fields_to_remove", "content_hash", "reference_hash", "hash_and_sign_event",
+               "servers_to_check_signatures", "is_invite_via_third_party_id"}
+
+
+def sig_inline(n):
+    if "{closure" in n:
+        return False
+    if n.startswith("ruma_signatures::functions::") and "<" not in n[len("ruma_signatures::functions::"):]:
+        return n.rsplit("::", 1)[-1] not in SIG_ANCHORS
+    return n in ("ruma_signatures::signatures::Signature::as_bytes",)
